@@ -16,7 +16,7 @@ os.makedirs(d, exist_ok=True)
 shutil.copy('%s/%s.patch' % (out, V), d + '/patch.diff')
 demo = a.get('demo_path_in_repo', 'tests/seeded_demo_%s.rs' % V.lower())
 shutil.copy('%s/%s_demo.rs' % (out, V), d + '/' + os.path.basename(demo))
-feat = ' --features sdp,blas-src,lapack-src' if ID == 'C18' else ''
+feat = ' --features sdp,blas-src,lapack-src' if ID in ('C18', 'C17') else ''
 meta = {
     'property': ID,
     'title': a.get('title'),
